@@ -14,7 +14,7 @@ LEVEL = 'exploration'
 LEVEL_TEXT = ('Every residue of the reference proteins in chain context (7-residue windows with stride 5; thorough: stride 1 and whole '
               'chains), every ligand template and the fragments flattened into a coordinate plane are run through the real program in '
               'default mode and with --protonate-all, in all 24 grid rotations x 2 translations, and (amino-acid inputs) with --keep-protons on '
-              'the program\'s own hydrogens with each single one of them removed; every hydrogen the program created is '
+              'the program\'s own hydrogens - complete, moved to X-ray riding distances, and with each single one of them removed; every hydrogen the program created is '
               'checked for exactly one bonded heavy atom (and no second heavy atom within 0.9 A), the tabulated X-H length (+-0.002 A), >= 0.5 A separation from its siblings, '
               'the complement of complete residues (His 2, Arg 5, Asn/Gln 2, Trp 1, amide 1 except Pro and N-terminus) together with '
               'the absence of the "missing atoms or failed protonation" warning, and equivariance of the hydrogen positions under the '
@@ -66,9 +66,11 @@ def akey(a):
     return (a.chain_id, a.res_num, a.icode, a.res_name, a.name)
 
 
-def hydrogens(mol, seam):
-    """{parent atom key: [(x,y,z)...]}, set of rotamer parents, geometric violations."""
+def hydrogens(mol, seam, supplied=()):
+    """{parent atom key: [(x,y,z)...]}, set of rotamer parents, geometric violations.  `supplied`: coordinates of hydrogens that came
+    with the input (their X-H length is the input's business; everything else applies to them too)."""
     conf = mol.conformations[mol.conformation_names[0]]
+    supplied = set(supplied)
     by_parent = collections.OrderedDict()
     v = []
     rot = set()
@@ -84,7 +86,7 @@ def hydrogens(mol, seam):
             v.append(('hydrogen-bond-asymmetric', 'H %s not in the bond list of its parent' % (akey(a),)))
         d = math.sqrt((a.x - p.x) ** 2 + (a.y - p.y) ** 2 + (a.z - p.z) ** 2)
         want = XH.get(p.element, 1.0)
-        if abs(d - want) > 0.002:
+        if abs(d - want) > 0.002 and (round(a.x, 3), round(a.y, 3), round(a.z, 3)) not in supplied:
             v.append(('hydrogen-bond-length/%s' % p.element, '%s-H %.4f A, table %.2f' % (akey(p), d, want)))
         by_parent.setdefault(akey(p), []).append((a.x, a.y, a.z))
         if id(p) in seam.rotamer_parents:
@@ -264,18 +266,34 @@ def run_case(case, ctx, acc):
                 if mode == 'default' and not unrounded and c07.amino_only(s) and case['src'] in ('corpus', 'flat'):
                     fed = c07.hydrogens_fed_back(s, m0)
                     hidx = [] if fed is None else [i for i, it in enumerate(fed) if not isinstance(it, str) and it.element == 'H']
-                    for drop in ([None] + hidx if hidx else []):
-                        items = [it for i, it in enumerate(fed) if i != drop]
+                    riding = None
+                    if hidx:
+                        # the same hydrogens at X-ray riding distances (N-H 0.86, O-H 0.82, C-H 0.93, S-H 1.20 A)
+                        riding = []
+                        for i, it in enumerate(fed):
+                            if i in hidx:
+                                par = min((p_ for p_ in fed if not isinstance(p_, str) and p_.element != 'H' and p_.reskey == it.reskey),
+                                          key=lambda p_: (p_.x - it.x) ** 2 + (p_.y - it.y) ** 2 + (p_.z - it.z) ** 2)
+                                d0 = math.sqrt((par.x - it.x) ** 2 + (par.y - it.y) ** 2 + (par.z - it.z) ** 2)
+                                f = {'N': 860.0, 'O': 820.0, 'C': 930.0, 'S': 1200.0}.get(par.element, 900.0) / d0
+                                it = it.clone()
+                                it.x, it.y, it.z = (int(round(getattr(par, c) + f * (getattr(it, c) - getattr(par, c)))) for c in 'xyz')
+                            riding.append(it)
+                    for drop in ([None, 'riding'] + hidx if hidx else []):
+                        items = riding if drop == 'riding' else [it for i, it in enumerate(fed) if i != drop]
+                        sup = [(it.x / 1000.0, it.y / 1000.0, it.z / 1000.0) for it in items if not isinstance(it, str) and it.element == 'H']
                         mark = pk.warn_mark()
                         seam.rotamer_parents.clear()
                         mk = pk.run(gen.to_text(items), ('--keep-protons',))
-                        hk, rotk, vk = hydrogens(mk, seam)
+                        hk, rotk, vk = hydrogens(mk, seam, supplied=[(round(x, 3), round(y, 3), round(z, 3)) for x, y, z in sup])
+                        if drop == 'riding' and sum(len(x) for x in hk.values()) != len(sup):
+                            vk.append(('hydrogen-count-changes-with-complete-input', '%d hydrogens supplied, %d present' % (len(sup), sum(len(x) for x in hk.values()))))
                         cvk, _ = complement(mk, s, pk.warnings_since(mark))
-                        subk = dict(case, mode='keep-protons', dropped=None if drop is None else fed[drop].name + '@%d' % fed[drop].resnum)
-                        acc.case(nontrivial_key=jhash(subk), outcome='keep-protons/%s' % ('all' if drop is None else 'one-missing'))
+                        subk = dict(case, mode='keep-protons', dropped=drop if drop in (None, 'riding') else fed[drop].name + '@%d' % fed[drop].resnum)
+                        acc.case(nontrivial_key=jhash(subk), outcome='keep-protons/%s' % ('all' if drop is None else ('riding' if drop == 'riding' else 'one-missing')))
                         donek = set()
                         for ck, what in vk + cvk:
-                            ck = ck + '/keep-protons' + ('' if drop is None else '-one-missing')
+                            ck = ck + '/keep-protons' + ('' if drop is None else ('-riding' if drop == 'riding' else '-one-missing'))
                             if ck not in donek:
                                 donek.add(ck)
                                 acc.viols.append(Viol(subk, 'hydrogens', ck, what, inputs=dict(pdb=gen.to_text(items), opts=['--keep-protons'])))
